@@ -31,6 +31,10 @@ func (Engine) Info(prop string) core.Info {
 			QuickRuns:    90000,
 			ThoroughRuns: 400000,
 			WatchdogSec:  300,
+			// a Write, Close or Read that never returns leaves the round trip
+			// unfinished: a hang (confirmed in a fresh process with three times
+			// the budget) is a violation here
+			HangIsViolation: true,
 		}
 	case "C08":
 		return infoC08()
